@@ -7,6 +7,7 @@ condition asks the engine to fork (see engine.py).
 from __future__ import annotations
 
 from fractions import Fraction
+import math
 
 import numpy as np
 import z3
@@ -449,6 +450,29 @@ class SymReal:
 
     def __round__(self, nd=None):
         raise HarnessError("round() of a symbolic value")
+
+    # numpy's object loops of np.round / np.rint / np.floor / np.ceil / np.trunc call these methods: discretisation of a real is an
+    # encoding boundary (never silently approximated), so that the driver falls back to the concrete test vectors of the task
+    def _discretise(self, fn, what):
+        if self.c is not None:
+            return SymReal(Fraction(fn(self.c)))
+        raise HarnessError(f"{what} of a symbolic value (discretisation boundary)")
+
+    def rint(self):
+        return self._discretise(round, "rint()")
+
+    def floor(self):
+        return self._discretise(math.floor, "floor()")
+
+    def ceil(self):
+        return self._discretise(math.ceil, "ceil()")
+
+    def trunc(self):
+        return self._discretise(math.trunc, "trunc()")
+
+    __floor__ = floor
+    __ceil__ = ceil
+    __trunc__ = trunc
 
     # numpy calls these on object arrays for sqrt / exp / square
     def sqrt(self):
